@@ -103,6 +103,8 @@ type Interp struct {
 	capOblig, capExplore int64
 	unwindCut int
 	known map[*Term]bool
+	ivals map[*Term]ival
+	masks map[*Term]*big.Int
 	knownVal map[*Term]uint64
 	cuts map[string]bool
 	lockLog   func(name string, mu Value)
@@ -253,7 +255,7 @@ type baseState struct {
 func (ex *Explorer) newBase(sol *Solver) (b *baseState) {
 	in := &Interp{ex: ex, prog: ex.prog, cfg: ex.cfg, tb: NewTB(), sol: sol,
 		sizes: types.SizesFor("gc", "amd64"), globals: map[*ssa.Global]*Value{}, initialised: map[*ssa.Package]bool{},
-		funcs: map[*ssa.Function]bool{}, trace: false, ghost: map[string]Value{}, usedStubs: map[string]bool{}, cuts: map[string]bool{}, known: map[*Term]bool{}, knownVal: map[*Term]uint64{}}
+		funcs: map[*ssa.Function]bool{}, trace: false, intMode: ex.cfg.IntMode, ghost: map[string]Value{}, usedStubs: map[string]bool{}, cuts: map[string]bool{}, known: map[*Term]bool{}, knownVal: map[*Term]uint64{}, ivals: map[*Term]ival{}, masks: map[*Term]*big.Int{}}
 	defer func() {
 		if r := recover(); r != nil {
 			ex.mu.Lock()
@@ -277,7 +279,7 @@ func (ex *Explorer) runPath(sol *Solver, base *baseState, prefix []Decision) (di
 	in := &Interp{ex: ex, prog: ex.prog, cfg: ex.cfg, tb: base.tb, sol: sol,
 		sizes: types.SizesFor("gc", "amd64"), globals: map[*ssa.Global]*Value{}, baseGlobals: base.globals, initialised: base.initialised,
 		globalCells: base.cells, globalMaps: base.maps,
-		decisions: prefix, funcs: map[*ssa.Function]bool{}, intMode: false, trace: ex.cfg.Trace, ghost: map[string]Value{}, usedStubs: map[string]bool{}, cuts: map[string]bool{}, known: map[*Term]bool{}, knownVal: map[*Term]uint64{}}
+		decisions: prefix, funcs: map[*ssa.Function]bool{}, intMode: ex.cfg.IntMode, trace: ex.cfg.Trace, ghost: map[string]Value{}, usedStubs: map[string]bool{}, cuts: map[string]bool{}, known: map[*Term]bool{}, knownVal: map[*Term]uint64{}, ivals: map[*Term]ival{}, masks: map[*Term]*big.Int{}}
 	base.tb.Mark()
 	defer func() {
 		base.tb.Rollback()
@@ -314,7 +316,6 @@ func (ex *Explorer) runPath(sol *Solver, base *baseState, prefix []Decision) (di
 				}
 			}
 		}()
-		in.intMode = ex.cfg.IntMode
 		in.callSSA(nil, ex.fn, nil, nil)
 		// normal end of harness: end witness + sample
 		in.pathSample(end)
@@ -707,7 +708,12 @@ func (in *Interp) modelNondets() []NondetVal {
 		case "len":
 			nv.V = fmt.Sprint(n.Pick)
 		case "int":
-			nv.V = fmt.Sprint(int64(val(n.Terms[0]).Uint64()))
+			v := val(n.Terms[0])
+			if v.IsInt64() {
+				nv.V = v.String()
+			} else {
+				nv.V = fmt.Sprint(int64(v.Uint64()))
+			}
 		default:
 			nv.V = val(n.Terms[0]).String()
 		}
